@@ -15,6 +15,7 @@ pub const REQUIRED: &[&str] = &[
     "ref_disp_4096",
     "ends_inside_flag_group",
     "window_edge_period",
+    "largest_input",
 ];
 
 pub fn run(cx: &mut Ctx) {
